@@ -460,20 +460,44 @@ func TestScenes(t *testing.T) {
 		nb := sdf.Box2{Min: bb.Min.SubScalar(m).Add(shift), Max: bb.Max.AddScalar(m).Add(shift)}
 		rb := &lat.Recorder2{S: lat.Rebox2{S: s, BB: nb}}
 		ls := collect(rb, r.mk(cells))
-		rl, ok := latticeOf(rb, r.name == "quadtree", h)
-		if !ok {
+		if _, ok := latticeOf(rb, r.name == "quadtree", h); !ok {
 			if len(ls) != 0 {
 				t.Fatalf("segments from a render that sampled a single coordinate")
 			}
 			rec.Case(false, "", "scene:empty-solid")
 			return
 		}
-		onEdge := func(cs []float64, x float64) bool { return x <= cs[0]+1e-9*h || x >= cs[len(cs)-1]-1e-9*h }
+		// precondition: the boundary lies inside the bounding box, decided on the box itself (samples on
+		// or outside the box, plus 64 points per box side), not on the lattice the renderer chose
+		reaches := false
 		for i, p := range rb.Pts {
-			if rb.Val[i] < 0 && (onEdge(rl.xs, p.X) || onEdge(rl.ys, p.Y)) {
-				rec.Count("discarded:solid-reaches-the-sampled-boundary", 1)
-				rec.Case(false, "", "discarded")
-				return
+			e := 1e-9 * h
+			if rb.Val[i] < 0 && !(p.X > nb.Min.X+e && p.Y > nb.Min.Y+e && p.X < nb.Max.X-e && p.Y < nb.Max.Y-e) {
+				reaches = true
+			}
+		}
+		nsz := nb.Size()
+		for i := 0; i <= 64 && !reaches; i++ {
+			u := float64(i) / 64
+			for _, p := range []v2.Vec{{X: nb.Min.X + u*nsz.X, Y: nb.Min.Y}, {X: nb.Min.X + u*nsz.X, Y: nb.Max.Y}, {X: nb.Min.X, Y: nb.Min.Y + u*nsz.Y}, {X: nb.Max.X, Y: nb.Min.Y + u*nsz.Y}} {
+				if s.Evaluate(p) < 0 {
+					reaches = true
+				}
+			}
+		}
+		if reaches {
+			rec.Count("discarded:solid-reaches-its-bounding-box", 1)
+			rec.Case(false, "", "discarded")
+			return
+		}
+		// the lattice must cover the bounding box (a pruning renderer samples only part of it: take the
+		// extent from a calibration render of a small positive constant field in the same box)
+		{
+			cal := &lat.Recorder2{S: lat.Const2{V: 1e-6 * h, BB: nb}}
+			collect(cal, r.mk(cells))
+			cx := lat.AxesOf2(cal.Pts, 1e-9*h)
+			if e := 1e-9 * h; cx.X[0] > nb.Min.X+e || cx.Y[0] > nb.Min.Y+e || cx.X[len(cx.X)-1] < nb.Max.X-e || cx.Y[len(cx.Y)-1] < nb.Max.Y-e {
+				rec.Violation(t, "MarchingSquares:"+r.name+":lattice-does-not-cover-bounding-box", "%s renderer, %d cells: the sampled lattice %v..%v does not cover the bounding box %v", r.name, cells, v2.Vec{X: cx.X[0], Y: cx.Y[0]}, v2.Vec{X: cx.X[len(cx.X)-1], Y: cx.Y[len(cx.Y)-1]}, nb)
 			}
 		}
 		checkContour(func(key, msg string) {
